@@ -366,6 +366,9 @@ func (ex *explorer) runWorker(id int, fn *ssa.Function) {
 		for k, v := range w.sites {
 			ex.res.Sites[k] += v
 		}
+		for _, l := range w.s.oneShotLog {
+			ex.res.Stubs["one-shot re-posed assertion ("+l+")"]++
+		}
 		ex.mu.Unlock()
 		w.s.close()
 	}
@@ -806,11 +809,29 @@ func (w *worker) assertHolds(label string, c *Term) {
 		return
 	}
 	r, m := w.s.check(mkNot(c), w.inputs, true)
+	if r == resUnknown {
+		// the incremental solver gave up: re-pose the obligation one-shot
+		switch w.s.oneShot(mkNot(c), 120) {
+		case resUnsat:
+			r = resUnsat
+		case resSat:
+			// a counterexample exists; get its model from the incremental solver with a longer limit
+			w.s.send("(set-option :timeout 120000)")
+			r, m = w.s.check(mkNot(c), w.inputs, true)
+			w.s.send(fmt.Sprintf("(set-option :timeout %d)", w.s.timeoutMS))
+		}
+	}
 	switch r {
 	case resSat:
 		w.violationWithModel("assert", label, "assertion "+label+" fails", m)
 	case resUnknown:
 		w.ex.inconclusive(fmt.Sprintf("solver answered unknown for assertion %s %s", label, w.s.lastErr))
+	}
+	if r == resUnsat {
+		// c follows from the path condition: adding it changes nothing and the
+		// current model keeps satisfying everything (no query needed)
+		w.assertPC(c)
+		return
 	}
 	w.assume(c)
 }
